@@ -30,6 +30,7 @@ pub fn in_fresh_thread<R: Send>(f: impl FnOnce() -> R + Send) -> R {
 pub struct BatchResult {
     pub stats: Stats,
     pub found: Vec<Found>,
+
     pub samples: Vec<serde_json::Value>,
     pub executed: u64,
     /// (run index, digest) pairs when requested
@@ -780,7 +781,7 @@ pub fn minimise_with(plan: &Plan, fails: &dyn Fn(&Plan) -> bool) -> (Plan, u64) 
         }
         // neutralise decisions one at a time, from the end
         for i in (0..best.write_sched.len()).rev() {
-            if best.write_sched[i] != WDec::Accept {
+            if i < best.write_sched.len() && best.write_sched[i] != WDec::Accept {
                 let mut c = best.clone();
                 c.write_sched[i] = WDec::Accept;
                 while c.write_sched.last() == Some(&WDec::Accept) {
@@ -820,6 +821,9 @@ pub fn minimise_with(plan: &Plan, fails: &dyn Fn(&Plan) -> bool) -> (Plan, u64) 
         }
         // simplify fault kinds: sticky -> transient, crash -> hard error
         for i in 0..best.write_sched.len() {
+            if i >= best.write_sched.len() {
+                break;
+            }
             let simpler = match &best.write_sched[i] {
                 WDec::HardSticky | WDec::Full | WDec::Crash { .. } => Some(WDec::HardTransient),
                 _ => None,
@@ -831,7 +835,7 @@ pub fn minimise_with(plan: &Plan, fails: &dyn Fn(&Plan) -> bool) -> (Plan, u64) 
             }
         }
         for i in 0..best.fmt_sched.len() {
-            if best.fmt_sched[i] == FDec::FailSticky {
+            if i < best.fmt_sched.len() && best.fmt_sched[i] == FDec::FailSticky {
                 let mut c = best.clone();
                 c.fmt_sched[i] = FDec::FailTransient;
                 progress |= attempt(c, &mut best, &mut tried);
